@@ -269,8 +269,17 @@ func runDKGCallers(t *testing.T, rc *RunCtx) {
 	// The second part of the table: earlier on, a genuine peer opened a generation for another account at the target whose
 	// participant list names the caller (an endpoint the target knows nothing of, with an identifier of its own). What a
 	// peer wrote into a request does not make anybody a peer.
+	msgAcct := acct
 	if tc.Named {
-		eps := append(co.endpoints(parts), &pb.Endpoint{Id: 9, Name: caller, Port: 9009})
+		namedID := uint64(9)
+		if rc.Ch.Pick(2, 0) == 1 {
+			// ... under the identifier 0 (the value "no identifier" also has), and the caller's message is for that
+			// very generation.
+			namedID = 0
+			msgAcct = "Wallet 3/earlier16"
+			rc.Stats.Inc("probe_caller_named_with_identifier_zero", 1)
+		}
+		eps := append(co.endpoints(parts), &pb.Endpoint{Id: namedID, Name: caller, Port: 9009})
 		err := co.prepareWith(target, legit, "Wallet 3/earlier16", 3, eps)
 		rc.Logf("%s: earlier generation naming the caller as participant: err=%v", tc, err)
 		rc.Stats.Inc("probe_caller_named_in_an_earlier_participant_list", 1)
@@ -284,17 +293,20 @@ func runDKGCallers(t *testing.T, rc *RunCtx) {
 	sec, vv := maliciousContribution(target.ID, th)
 	var err error
 	var cres *pb.ContributeResponse
+	if msgAcct != acct {
+		sec, vv = maliciousContribution(target.ID, 3) // that generation's threshold
+	}
 	switch tc.Msg {
 	case "prepare":
-		err = co.prepare(target, caller, acct, th, parts)
+		err = co.prepare(target, caller, msgAcct, th, parts)
 	case "execute":
-		err = co.execute(target, caller, acct)
+		err = co.execute(target, caller, msgAcct)
 	case "contribute":
-		cres, err = co.contribute(target, caller, acct, sec, vv)
+		cres, err = co.contribute(target, caller, msgAcct, sec, vv)
 	case "commit":
-		_, err = co.commit(target, caller, acct)
+		_, err = co.commit(target, caller, msgAcct)
 	case "abort":
-		err = co.abort(target, caller, acct)
+		err = co.abort(target, caller, msgAcct)
 	}
 	rc.Logf("%s: caller %q -> err=%v", tc, caller, err)
 	if p := c.anyPanic(); p != "" {
